@@ -58,6 +58,7 @@ def run_one(entry: dict, tier: str, seed: int, workers: int, runs: int | None) -
         env = dict(os.environ)
         env.pop("GEOSIM_CHILD", None)
         env.update({"GEOMETER_SRC": tmp, "GEOSIM_REPLAY_DIR": os.path.join(tmp, "replays")})
+        env.setdefault("GEOSIM_MIN_BUDGET", "80")   # the corpus run needs the verdict, not the smallest replay
         # a change that only the deeper exploration finds says so in its meta.json ("tier": "thorough", "budget": s)
         cmd = [sys.executable, os.path.join(VERIF, "check.py"), entry["property"], "--tier", entry.get("tier") or tier,
                "--seed", str(seed), "--no-evidence", "--no-selftest", "--workers", str(workers)]
